@@ -20,6 +20,7 @@ Section HintInd.
   Hypothesis PTuple : forall hs, Forall P hs -> P (HTuple hs).
   Hypothesis PLiteral : forall vs, P (HLiteral vs).
   Hypothesis PType : forall cs, P (HType cs).
+  Hypothesis PAnnot : forall mh vs, P mh -> P (HAnnot mh vs).
 
   Fixpoint hint_ind2 (h : hint) : P h :=
     match h with
@@ -35,8 +36,55 @@ Section HintInd.
                                  match l with [] => Forall_nil P | x :: l' => Forall_cons x (hint_ind2 x) (go l') end) hs)
     | HLiteral vs => PLiteral vs
     | HType cs => PType cs
+    | HAnnot mh vs => PAnnot mh vs (hint_ind2 mh)
     end.
 End HintInd.
+
+(* ------------------------------------------------------------ induction on objects *)
+Section PyvalInd.
+  Variable P : pyval -> Prop.
+  Hypothesis PNone : P VNone.
+  Hypothesis PBool : forall b, P (VBool b).
+  Hypothesis PInt : forall z, P (VInt z).
+  Hypothesis PFloat : forall z, P (VFloat z).
+  Hypothesis PStr : forall s, P (VStr s).
+  Hypothesis PBytes : forall s, P (VBytes s).
+  Hypothesis PCont : forall c l, Forall P l -> P (VCont c l).
+  Hypothesis PMap : forall c kvs, Forall (fun kv => P (fst kv) /\ P (snd kv)) kvs -> P (VMap c kvs).
+  Hypothesis PCls : forall c, P (VCls c).
+  Hypothesis PObj : forall c attrs, Forall (fun a => P (snd a)) attrs -> P (VObj c attrs).
+
+  Fixpoint pyval_ind2 (v : pyval) : P v :=
+    match v with
+    | VNone => PNone | VBool b => PBool b | VInt z => PInt z | VFloat z => PFloat z
+    | VStr s => PStr s | VBytes s => PBytes s
+    | VCont c l => PCont c l ((fix go (l : list pyval) : Forall P l :=
+                                 match l with [] => Forall_nil P | x :: l' => Forall_cons x (pyval_ind2 x) (go l') end) l)
+    | VMap c kvs =>
+        PMap c kvs ((fix go (l : list (pyval * pyval)) : Forall (fun kv => P (fst kv) /\ P (snd kv)) l :=
+                       match l with
+                       | [] => Forall_nil _
+                       | (k, x) :: l' => Forall_cons (k, x) (conj (pyval_ind2 k) (pyval_ind2 x)) (go l')
+                       end) kvs)
+    | VCls c => PCls c
+    | VObj c attrs =>
+        PObj c attrs ((fix go (l : list (string * pyval)) : Forall (fun a => P (snd a)) l :=
+                         match l with
+                         | [] => Forall_nil _
+                         | (k, x) :: l' => Forall_cons (k, x) (pyval_ind2 x) (go l')
+                         end) attrs)
+    end.
+End PyvalInd.
+
+Lemma val_same_refl v : val_same v v = true.
+Proof.
+  induction v using pyval_ind2; cbn [val_same];
+    try reflexivity; try apply Bool.eqb_reflx; try apply Z.eqb_refl; try apply String.eqb_refl; try apply Nat.eqb_refl.
+  - rewrite Nat.eqb_refl. cbn. induction H as [|x l Hx Hl IH]; [reflexivity|]. now rewrite Hx, IH.
+  - rewrite Nat.eqb_refl. cbn. induction H as [|[k x] l [Hk Hx] Hl IH]; [reflexivity|]. cbn in *. now rewrite Hk, Hx, IH.
+  - rewrite Nat.eqb_refl. cbn. induction H as [|[k x] l Hx Hl IH]; [reflexivity|]. cbn in *.
+    now rewrite String.eqb_refl, Hx, IH.
+Qed.
 
 (* ------------------------------------------------------------ shape lemmas *)
 
@@ -194,7 +242,10 @@ Ltac solve_agree :=
 Section Correct.
   Variable cf : gconf.
   Variable r : Z.
-  Variable preds : nat -> pyval -> res pyval.
+  Variable pb : nat -> pyval -> bool.
+  (* user callables inside Is[...] are modelled as total boolean functions *)
+  Definition preds_of (f : nat) (v : pyval) : res pyval := Ok (VBool (pb f v)).
+  Notation preds := preds_of.
   Notation ev := (eval r preds).
 
   Lemma ev_var n E s i y : agree n E s -> i < n -> E i = Some y -> ev (EVar (Pith i)) s = (Ok y, s).
@@ -246,7 +297,7 @@ Section Correct.
     forall pith idx y p E,
       pith_triple pith idx y p E -> wf y = true ->
       forall s, agree p E s ->
-        exists s2, ev (gen cf h pith idx) s = (Ok (VBool (chk cf r h y)), s2) /\ post pith idx y p E s2.
+        exists s2, ev (gen cf h pith idx) s = (Ok (VBool (chk cf r pb h y)), s2) /\ post pith idx y p E s2.
 
   Lemma leaf_instance c pith idx y p E s :
     pith_triple pith idx y p E -> agree p E s ->
@@ -402,7 +453,7 @@ Section Correct.
       exists s2,
         ev (tpl_container (gen cf ch (mk (EVar (Pith (node_i pith idx)))) (node_i pith idx))
                           [sign_origin s0] (node_assign pith idx) (EVar (Pith (node_i pith idx)))) s
-        = (Ok (VBool (isinst y [sign_origin s0] && (len0 y || chk cf r ch (sel y)))), s2)
+        = (Ok (VBool (isinst y [sign_origin s0] && (len0 y || chk cf r pb ch (sel y)))), s2)
         /\ post pith idx y p E s2.
   Proof.
     intros IH Hig Hsimple Hsized Hsel Hwsel pith idx y p E Ht Hw s Ha.
@@ -695,7 +746,7 @@ Section Correct.
       exists s', ev (tpl_mapping_key_value (gen cf k (EVar (Pith (S i))) (S i))
                        (valcode (tpl_mapping_key_value_child (EVar (Pith i)) (EVar (Pith (S i)))) (S i))
                        (EVar (Pith i)) (Pith (S i))) s
-                 = (Ok (VBool (chk cf r k (first y) && Bv (value_of_first_key y))), s')
+                 = (Ok (VBool (chk cf r pb k (first y) && Bv (value_of_first_key y))), s')
                  /\ agree (S i) E1 s'.
   Proof.
     intros Ho IHk Hik Hval y i E1 s Hw Hi Hne HE A.
@@ -709,7 +760,7 @@ Section Correct.
     destruct (IHk Hik _ _ _ _ _ (var_triple (S i) E1 (first y)) Hwf _ A2) as (s3 & E3 & P3).
     apply post_var_child in P3.
     rewrite (ev_and _ _ _ _ _ E3). cbn [truthy].
-    destruct (chk cf r k (first y)); cbn [andb].
+    destruct (chk cf r pb k (first y)); cbn [andb].
     - assert (HE2i : E2 i = Some y) by (unfold E2; rewrite upd_other by lia; exact HE).
       assert (HE2s : E2 (S i) = Some (first y)) by apply upd_self.
       destruct (map_key_value y o i E2 s3 Hw Hi Ho Hne HE2i HE2s P3) as (_ & Hwv & Hsafe).
@@ -727,7 +778,7 @@ Section Correct.
     forall y' i E2 e s, simple e = false -> wf y' = true ->
       (forall s0, agree (S i) E2 s0 -> exists s1, ev e s0 = (Ok y', s1) /\ agree (S i) E2 s1) ->
       agree (S i) E2 s ->
-      exists s', ev (gen cf vh e i) s = (Ok (VBool (chk cf r vh y')), s') /\ agree (S i) E2 s'.
+      exists s', ev (gen cf vh e i) s = (Ok (VBool (chk cf r pb vh y')), s') /\ agree (S i) E2 s'.
   Proof.
     intros IH Hig y' i E2 e s Hs Hw He A.
     destruct (IH Hig _ _ _ _ _ (child_triple i E2 e y' Hs He) Hw _ A) as (s' & E' & P').
@@ -781,7 +832,7 @@ Section Correct.
     - (* value only *)
       apply (mapping_generic (map_origin s0)
                (fun v i => tpl_mapping_value_only (gen cf vh (tpl_mapping_value_only_child v) i))
-               (fun y => true && chk cf r vh (first_value y)) Ho); auto.
+               (fun y => true && chk cf r pb vh (first_value y)) Ho); auto.
       intros y0 i E1 s1 Hw0 Hi0 Hne HE A.
       destruct (mapping_view y0 _ Hw0 Hi0 Ho) as (Hm0 & _).
       destruct (map_first_value y0 _ i E1 s1 Hw0 Hi0 Ho Hne HE A) as (_ & Hwv).
@@ -792,7 +843,7 @@ Section Correct.
     - (* key only *)
       apply (mapping_generic (map_origin s0)
                (fun v i => tpl_mapping_key_only (gen cf k (tpl_mapping_key_only_child v) i))
-               (fun y => chk cf r k (first y) && true) Ho); auto.
+               (fun y => chk cf r pb k (first y) && true) Ho); auto.
       intros y0 i E1 s1 Hw0 Hi0 Hne HE A.
       destruct (mapping_view y0 _ Hw0 Hi0 Ho) as (Hm0 & _).
       pose proof (collection_of_mapping _ Hm0) as Hc0.
@@ -805,9 +856,9 @@ Section Correct.
       apply (mapping_generic (map_origin s0)
                (fun v i => tpl_mapping_key_value (gen cf k (EVar (Pith (S i))) (S i))
                              (gen cf vh (tpl_mapping_key_value_child v (EVar (Pith (S i)))) (S i)) v (Pith (S i)))
-               (fun y => chk cf r k (first y) && chk cf r vh (value_of_first_key y)) Ho); auto.
+               (fun y => chk cf r pb k (first y) && chk cf r pb vh (value_of_first_key y)) Ho); auto.
       intros y0 i E1 s1 Hw0 Hi0 Hne HE A.
-      apply (key_value_code (map_origin s0) k (fun e i => gen cf vh e i) (chk cf r vh) Ho IHk Hik
+      apply (key_value_code (map_origin s0) k (fun e i => gen cf vh e i) (chk cf r pb vh) Ho IHk Hik
                (valcode_gen vh IHv Hiv)); auto.
   Qed.
 
@@ -829,7 +880,7 @@ Section Correct.
     - apply (mapping_generic counter_origin
                (fun v i => tpl_mapping_key_value (gen cf k (EVar (Pith (S i))) (S i))
                              (tpl_instance [c_int] (tpl_mapping_key_value_child v (EVar (Pith (S i))))) v (Pith (S i)))
-               (fun y => chk cf r k (first y) && isinst (value_of_first_key y) [c_int]) Ho); auto.
+               (fun y => chk cf r pb k (first y) && isinst (value_of_first_key y) [c_int]) Ho); auto.
       intros y0 i E1 s1 Hw0 Hi0 Hne HE A.
       apply (key_value_code counter_origin k (fun e (_ : nat) => tpl_instance [c_int] e)
                (fun y' => isinst y' [c_int]) Ho IHk Hik valcode_int); auto.
@@ -941,7 +992,7 @@ Section Correct.
     fix go (l : list hint) (n : nat) : bool :=
       match l with
       | [] => true
-      | h' :: l' => (if ignorable h' then true else chk cf r h' (nth n (items y) VNone)) && go l' (S n)
+      | h' :: l' => (if ignorable h' then true else chk cf r pb h' (nth n (items y) VNone)) && go l' (S n)
       end.
 
   Lemma gen_tuple_unfold h0 hs pith idx :
@@ -952,7 +1003,7 @@ Section Correct.
   Proof. reflexivity. Qed.
 
   Lemma chk_tuple_unfold hs y :
-    chk cf r (HTuple hs) y =
+    chk cf r pb (HTuple hs) y =
     isinst y [c_tuple] && Nat.eqb (List.length (items y)) (List.length hs) && tuple_chk y hs 0.
   Proof. reflexivity. Qed.
 
@@ -1018,7 +1069,7 @@ Section Correct.
       cbn [tuple_kids tuple_chk]. replace (Z.of_nat n + 1)%Z with (Z.of_nat (S n)) by lia.
       destruct (ignorable h') eqn:Hig.
       + exists bs. split; [exact Hbs|exact Hall].
-      + exists (chk cf r h' (nth n (items y) VNone) :: bs). split; [|cbn; now rewrite Hall].
+      + exists (chk cf r pb h' (nth n (items y) VNone) :: bs). split; [|cbn; now rewrite Hall].
         constructor; [|exact Hbs].
         intros s A. apply (valcode_gen h' Hh Hig); auto.
         * apply wf_nth; [exact Hw|lia].
@@ -1118,13 +1169,13 @@ Section Correct.
   Proof. reflexivity. Qed.
 
   Definition union_any (y : pyval) :=
-    fix any (l : list hint) : bool := match l with [] => false | h' :: l' => chk cf r h' y || any l' end.
+    fix any (l : list hint) : bool := match l with [] => false | h' :: l' => chk cf r pb h' y || any l' end.
 
-  Lemma chk_union_unfold hs y : chk cf r (HUnion hs) y = union_any y hs.
+  Lemma chk_union_unfold hs y : chk cf r pb (HUnion hs) y = union_any y hs.
   Proof. reflexivity. Qed.
 
   Definition pep_results (y : pyval) (hs : list hint) : list bool :=
-    flat_map (fun h' => match nonpep_class h' with Some _ => [] | None => [chk cf r h' y] end) hs.
+    flat_map (fun h' => match nonpep_class h' with Some _ => [] | None => [chk cf r pb h' y] end) hs.
 
   Lemma union_any_split y hs :
     union_any y hs = isinst y (union_nonpep hs) || existsb (fun b => b) (pep_results y hs).
@@ -1134,9 +1185,9 @@ Section Correct.
     remember (existsb (issub (type_of y))
                 (flat_map (fun h' => match nonpep_class h' with Some c => [c] | None => [] end) hs)) as A.
     remember (existsb (fun b => b)
-                (flat_map (fun h' => match nonpep_class h' with Some _ => [] | None => [chk cf r h' y] end) hs)) as B.
+                (flat_map (fun h' => match nonpep_class h' with Some _ => [] | None => [chk cf r pb h' y] end) hs)) as B.
     destruct h'; cbn [nonpep_class app existsb]; rewrite <- ?HeqA, <- ?HeqB;
-      try (destruct (chk cf r _ y), A, B; reflexivity).
+      try (destruct (chk cf r pb _ y), A, B; reflexivity).
     cbn [chk]. unfold isinst. cbn [existsb]. destruct (issub (type_of y) c), A, B; reflexivity.
   Qed.
 
@@ -1213,7 +1264,7 @@ Section Correct.
       assert (En0 : nonpep_class h0 = None).
       { unfold union_nonpep in Enp. apply dedup_nil in Enp. cbn [flat_map] in Enp.
         destruct (nonpep_class h0); [discriminate|reflexivity]. }
-      assert (Hpr : pep_results y (h0 :: hs') = chk cf r h0 y :: pep_results y hs')
+      assert (Hpr : pep_results y (h0 :: hs') = chk cf r pb h0 y :: pep_results y hs')
         by (unfold pep_results; cbn [flat_map]; now rewrite En0).
       rewrite Hpr. cbn [union_peps]. rewrite En0. cbn [andb negb app].
       inversion IH as [|? ? Hh0 Hl]; subst.
@@ -1228,7 +1279,7 @@ Section Correct.
         exists s2. split; [reflexivity|].
         apply post_of_agree; [eapply triple_le; eauto|]. exact P2.
       + rewrite join_cons2, (ev_or _ _ _ _ _ E2). cbn [truthy existsb].
-        destruct (chk cf r h0 y); cbn [orb].
+        destruct (chk cf r pb h0 y); cbn [orb].
         * exists s2. split; [reflexivity|]. apply post_of_agree; [eapply triple_le; eauto|]. exact P2.
         * destruct (join_or_eval (agree (S i) E1) (e1 :: es) _ Hrest ltac:(discriminate) s2 P2) as (s3 & E3 & A3).
           rewrite E3. exists s3. split; [reflexivity|].
@@ -1252,6 +1303,190 @@ Section Correct.
           apply post_of_agree; [eapply triple_le; eauto|]. exact A3.
   Qed.
 
+  (* ---------------- validators (beartype.vale) and Annotated ---------------- *)
+  Lemma path_eqb_eq a : forall b, path_eqb a b = true <-> a = b.
+  Proof.
+    induction a as [|x a IH]; intros [|y b]; cbn; split; intros H; try discriminate; try reflexivity.
+    - apply andb_true_iff in H as [H1 H2]. apply String.eqb_eq in H1. apply IH in H2. now subst.
+    - inversion H; subst. rewrite String.eqb_refl. cbn. now apply IH.
+  Qed.
+
+  Lemma var_eqb_eq a b : var_eqb a b = true <-> a = b.
+  Proof.
+    destruct a as [n|n p], b as [m|m q]; cbn; split; intros H; try discriminate.
+    - apply Nat.eqb_eq in H. now subst.
+    - inversion H. apply Nat.eqb_refl.
+    - apply andb_true_iff in H as [H1 H2]. apply Nat.eqb_eq in H1. apply path_eqb_eq in H2. now subst.
+    - inversion H; subst. rewrite Nat.eqb_refl. cbn. now apply path_eqb_eq.
+  Qed.
+
+  Lemma env_get_bind_same x v s : env_get x (env (bind x v s)) = Some v.
+  Proof. unfold bind; cbn. now rewrite (proj2 (var_eqb_eq x x) eq_refl). Qed.
+
+  Lemma env_get_bind_other x y v s : x <> y -> env_get x (env (bind y v s)) = env_get x (env s).
+  Proof.
+    intros H. unfold bind; cbn. destruct (var_eqb x y) eqn:E; [apply var_eqb_eq in E; congruence|reflexivity].
+  Qed.
+
+  (* x is a temporary created below obj: its name strictly extends obj's *)
+  Definition extends (obj x : var) : Prop :=
+    match obj, x with
+    | Pith n, Tmp m p => n = m /\ p <> []
+    | Tmp n p, Tmp m q => n = m /\ exists suf, suf <> [] /\ q = p ++ suf
+    | _, _ => False
+    end.
+
+  Lemma extends_irrefl x : ~ extends x x.
+  Proof.
+    destruct x as [n|n p]; cbn; [tauto|]. intros (_ & suf & Hne & E).
+    assert (List.length p = List.length (p ++ suf)) by now rewrite <- E.
+    rewrite app_length in H. destruct suf; [congruence|cbn in H; lia].
+  Qed.
+
+  Lemma extends_attr obj n : extends obj (attr_tmp obj n).
+  Proof.
+    destruct obj as [k|k p]; cbn; (split; [reflexivity|]); [discriminate|].
+    exists [n]. split; [discriminate|reflexivity].
+  Qed.
+
+  Lemma extends_trans a b c : extends a b -> extends b c -> extends a c.
+  Proof.
+    destruct a as [n|n p], b as [m|m q], c as [k|k t]; cbn; try tauto.
+    - intros (-> & Hq) (-> & suf & Hs & ->). split; [reflexivity|]. destruct q; [congruence|discriminate].
+    - intros (-> & s1 & H1 & ->) (-> & s2 & H2 & ->). split; [reflexivity|].
+      exists (s1 ++ s2). split; [destruct s1; [congruence|discriminate]|now rewrite app_assoc].
+  Qed.
+
+  Lemma not_extends_pith obj k : ~ extends obj (Pith k).
+  Proof. destruct obj; cbn; tauto. Qed.
+
+  Lemma wf_getattr y n a : wf y = true -> py_getattr y n = Some a -> wf a = true.
+  Proof.
+    destruct y; cbn [py_getattr]; try discriminate. cbn [wf]. intros H Ha.
+    apply andb_true_iff in H as [_ H]. induction attrs as [|[k v] l IH]; cbn in *; [discriminate|].
+    apply andb_true_iff in H as [Hv Hl]. destruct (String.eqb k n); [now inversion Ha; subst|now apply IH].
+  Qed.
+
+  (* the inline code of a validator computes its boolean meaning, binds only temporaries of
+     its own, and performs only harmless operations *)
+  Lemma vcode_correct v : forall obj y s,
+    wf y = true -> env_get obj (env s) = Some y -> Forall safe_op (trace s) ->
+    exists s', ev (vcode v obj) s = (Ok (VBool (vmean pb v y)), s')
+               /\ (forall x, ~ extends obj x -> env_get x (env s') = env_get x (env s))
+               /\ Forall safe_op (trace s').
+  Proof.
+    induction v as [f|n w IH|o|cs|cs|a IHa b IHb|a IHa b IHb|a IHa]; intros obj y s Hw He Ht; cbn [vcode vmean].
+    - exists (log (TCall f y) s). cbn [eval]. rewrite He. unfold preds_of. repeat split; auto.
+      unfold log; cbn. apply Forall_app. split; [exact Ht|now repeat constructor].
+    - unfold tpl_vale_isattr. cbn [eval]. rewrite He.
+      destruct (py_getattr y n) as [a|] eqn:Ea.
+      + set (s1 := bind (attr_tmp obj n) a (log (TAttr y n) s)).
+        assert (Ht1 : Forall safe_op (trace s1)).
+        { unfold s1, bind, log; cbn. apply Forall_app. split; [exact Ht|now repeat constructor]. }
+        destruct (IH (attr_tmp obj n) a s1 (wf_getattr _ _ _ Hw Ea) (env_get_bind_same _ _ _) Ht1)
+          as (s2 & E2 & F2 & T2).
+        cbn [truthy]. rewrite E2. exists s2. repeat split; auto.
+        intros x Hx. rewrite F2.
+        * unfold s1. rewrite env_get_bind_other; [reflexivity|]. intros ->. apply Hx, extends_attr.
+        * intros Hx'. apply Hx. eapply extends_trans; [apply extends_attr|exact Hx'].
+      + cbn [truthy]. eexists. repeat split; auto.
+        unfold log; cbn. apply Forall_app. split; [exact Ht|now repeat constructor].
+    - unfold tpl_vale_isequal. cbn [eval]. rewrite He. eexists. repeat split; auto.
+      unfold log; cbn. apply Forall_app. split; [exact Ht|now repeat constructor].
+    - unfold tpl_vale_isinstance. cbn [eval]. rewrite He. eexists. repeat split; auto.
+      unfold log; cbn. apply Forall_app. split; [exact Ht|now repeat constructor].
+    - unfold tpl_vale_issubclass. cbn [eval]. rewrite He. cbn [truthy].
+      destruct (isinst y [c_type]) eqn:Ei; cbn [andb].
+      + rewrite isinst_single in Ei. destruct (wf_type_shape y Hw Ei) as (c & ->).
+        cbn [env log]. rewrite He. cbn [issubcls]. eexists. repeat split; auto.
+        unfold log; cbn. apply Forall_app. split; [apply Forall_app; split; [exact Ht|now repeat constructor]|now repeat constructor].
+      + eexists. repeat split; auto.
+        unfold log; cbn. apply Forall_app. split; [exact Ht|now repeat constructor].
+    - destruct (IHa obj y s Hw He Ht) as (s1 & E1 & F1 & T1). cbn [eval]. rewrite E1. cbn [truthy].
+      destruct (vmean pb a y); cbn [andb].
+      + assert (He1 : env_get obj (env s1) = Some y) by (rewrite F1; [exact He|apply extends_irrefl]).
+        destruct (IHb obj y s1 Hw He1 T1) as (s2 & E2 & F2 & T2). rewrite E2. exists s2. repeat split; auto.
+        intros x Hx. now rewrite F2, F1.
+      + exists s1. repeat split; auto.
+    - destruct (IHa obj y s Hw He Ht) as (s1 & E1 & F1 & T1). cbn [eval]. rewrite E1. cbn [truthy].
+      destruct (vmean pb a y); cbn [orb].
+      + exists s1. repeat split; auto.
+      + assert (He1 : env_get obj (env s1) = Some y) by (rewrite F1; [exact He|apply extends_irrefl]).
+        destruct (IHb obj y s1 Hw He1 T1) as (s2 & E2 & F2 & T2). rewrite E2. exists s2. repeat split; auto.
+        intros x Hx. now rewrite F2, F1.
+    - destruct (IHa obj y s Hw He Ht) as (s1 & E1 & F1 & T1). cbn [eval]. rewrite E1. cbn [truthy is_container].
+      exists s1. repeat split; auto.
+  Qed.
+
+  (* all validators of an Annotated hint, applied to a bound pith variable *)
+  Lemma validators_eval vs i E1 y : wf y = true -> E1 i = Some y ->
+    Forall2 (fun e b => forall s, agree (S i) E1 s -> exists s', ev e s = (Ok (VBool b), s') /\ agree (S i) E1 s')
+            (map (fun w => vcode w (Pith i)) vs) (map (fun w => vmean pb w y) vs).
+  Proof.
+    intros Hw HE. induction vs as [|w vs IH]; cbn [map]; constructor; [|exact IH].
+    intros s A.
+    assert (He : env_get (Pith i) (env s) = Some y) by (rewrite (agree_get _ _ _ i A) by lia; exact HE).
+    destruct (vcode_correct w (Pith i) y s Hw He (agree_safe _ _ _ A)) as (s' & E' & F' & T').
+    exists s'. split; [exact E'|]. split; [|exact T'].
+    intros k Hk. rewrite F' by apply not_extends_pith. now apply (agree_get _ _ _ k A).
+  Qed.
+
+  Lemma forallb_id_map {A} (f : A -> bool) l : forallb (fun b => b) (map f l) = forallb f l.
+  Proof. induction l as [|x l IH]; [reflexivity|]. cbn. now rewrite IH. Qed.
+
+  Lemma ok_annot mh vs : node_ok mh -> vs <> [] -> node_ok (HAnnot mh vs).
+  Proof.
+    intros IH Hne _ pith idx y p E Ht Hw s Ha. cbn [gen chk].
+    change (if simple pith then idx else S idx) with (node_i pith idx).
+    change (if simple pith then pith else tpl_assign pith (Pith (S idx))) with (node_assign pith idx).
+    set (i := node_i pith idx). set (E1 := upd E i y).
+    assert (HE1 : E1 i = Some y) by (unfold E1, upd; now rewrite Nat.eqb_refl).
+    unfold tpl_annotated_op. rewrite <- (forallb_id_map (fun v => vmean pb v y) vs).
+    assert (Hvs := validators_eval vs i E1 y Hw HE1).
+    assert (Hmne : map (fun w => vcode w (Pith i)) vs <> []) by (destruct vs; [congruence|discriminate]).
+    destruct (ignorable mh) eqn:Hig.
+    - destruct (is_ident pith) as [x|] eqn:Eid.
+      + (* the pith is already a variable: by the generator's invariant it is the current one *)
+        destruct pith; try discriminate. inversion Eid; subst x0.
+        destruct (node_enter _ _ _ _ _ _ Ht Ha) as (s1 & Eas & A1). fold i in A1. fold E1 in A1.
+        unfold node_assign in Eas. cbn [simple eval] in Eas.
+        destruct (env_get x (env s)) as [y0|] eqn:Ex; [|discriminate]. inversion Eas; subst y0 s1. clear Eas.
+        (* every validator sees x = y and leaves the pith variables alone *)
+        assert (Hvx : Forall2 (fun e b => forall s0, (agree (S i) E1 s0 /\ env_get x (env s0) = Some y) ->
+                          exists s', ev e s0 = (Ok (VBool b), s') /\ (agree (S i) E1 s' /\ env_get x (env s') = Some y))
+                        (map (fun w => vcode w x) vs) (map (fun w => vmean pb w y) vs)).
+        { clear Hvs Hmne Hne. induction vs as [|w vs IHvs]; cbn [map]; constructor; [|exact IHvs].
+          intros s0 [A0 Hx0].
+          destruct (vcode_correct w x y s0 Hw Hx0 (agree_safe _ _ _ A0)) as (s' & E' & F' & T').
+          exists s'. split; [exact E'|]. split.
+          - split; [|exact T']. intros k Hk. rewrite F' by apply not_extends_pith. now apply (agree_get _ _ _ k A0).
+          - rewrite F' by apply extends_irrefl. exact Hx0. }
+        destruct (join_and_eval (fun s0 => agree (S i) E1 s0 /\ env_get x (env s0) = Some y)
+                    _ _ Hvx ltac:(destruct vs; [congruence|discriminate]) s (conj A1 Ex)) as (s2 & E2 & A2 & _).
+        rewrite E2. exists s2. split; [reflexivity|].
+        apply post_of_agree; [eapply triple_le; eauto|]. exact A2.
+      + (* a compound pith: localise it first *)
+        destruct (node_enter _ _ _ _ _ _ Ht Ha) as (s1 & Eas & A1). fold i in A1. fold E1 in A1.
+        assert (Eis : ev (tpl_annotated_pith (node_assign pith idx) (EVar (Pith i))) s = (Ok (VBool true), s1)).
+        { unfold tpl_annotated_pith. cbn [eval]. rewrite Eas. rewrite (agree_get _ _ _ i A1) by lia. rewrite HE1.
+          now rewrite val_same_refl. }
+        destruct (map (fun w => vcode w (Pith i)) vs) as [|e1 es] eqn:Em; [congruence|].
+        rewrite join_cons2, (ev_and _ _ _ _ _ Eis). cbn [truthy].
+        destruct (join_and_eval (agree (S i) E1) (e1 :: es) _ Hvs ltac:(discriminate) s1 A1) as (s2 & E2 & A2).
+        rewrite E2. exists s2. split; [reflexivity|].
+        apply post_of_agree; [eapply triple_le; eauto|]. exact A2.
+    - (* an unignorable metahint is checked first, on the assignment *)
+      destruct (IH Hig _ _ _ _ _ (assign_triple _ _ _ _ _ Ht) Hw _ Ha) as (s1 & E1' & P1).
+      apply post_assign_child in P1. fold i in P1. fold E1 in P1. fold i in E1'.
+      destruct (map (fun w => vcode w (Pith i)) vs) as [|e1 es] eqn:Em; [congruence|].
+      rewrite join_cons2, (ev_and _ _ _ _ _ E1'). cbn [truthy].
+      destruct (chk cf r pb mh y); cbn [andb].
+      + destruct (join_and_eval (agree (S i) E1) (e1 :: es) _ Hvs ltac:(discriminate) s1 P1) as (s2 & E2 & A2).
+        rewrite E2. exists s2. split; [reflexivity|].
+        apply post_of_agree; [eapply triple_le; eauto|]. exact A2.
+      + exists s1. split; [reflexivity|]. apply post_of_agree; [eapply triple_le; eauto|]. exact P1.
+  Qed.
+
   (* ---------------- all hints ---------------- *)
   (* members of a Literal are None, bools, ints, strs or bytes (PEP 586) *)
   Definition lit_scalar (v : pyval) : bool :=
@@ -1261,6 +1496,7 @@ Section Correct.
     match h with
     | HAny | HCls _ | HShallow _ | HType _ => true
     | HLiteral vs => forallb lit_scalar vs
+    | HAnnot mh vs => match vs with [] => false | _ => true end && hint_ok mh
     | HUnion hs =>
         match hs with [] => false | _ => true end &&
         (fix all (l : list hint) : bool := match l with [] => true | x :: l' => hint_ok x && all l' end) hs
@@ -1307,13 +1543,15 @@ Section Correct.
     - apply ok_tuple. cbn [hint_ok] in Hok. now apply forall_ok.
     - apply ok_literal.
     - apply ok_type.
+    - cbn [hint_ok] in Hok. apply andb_true_iff in Hok as [Hne Hm].
+      apply ok_annot; [now apply IHh|destruct vs; [discriminate|discriminate]].
   Qed.
 
   (* ---- the whole checker: for every well-formed hint and object, every draw and every user
           callable table, the generated expression returns exactly [check], never raising ---- *)
   Lemma root_run h x :
     hint_ok h = true -> wf x = true -> ignorable h = false ->
-    exists s2, ev (gen cf h (EVar (Pith 0)) 0) (st0 x) = (Ok (VBool (chk cf r h x)), s2)
+    exists s2, ev (gen cf h (EVar (Pith 0)) 0) (st0 x) = (Ok (VBool (chk cf r pb h x)), s2)
                /\ Forall safe_op (trace s2).
   Proof.
     intros Hok Hw Hig.
@@ -1334,7 +1572,7 @@ Section Correct.
           callable table, the generated expression returns exactly [check], never raising ---- *)
   Theorem check_expr_correct h x :
     hint_ok h = true -> wf x = true ->
-    verdict r preds (check_expr cf h) x = Ok (check cf r h x).
+    verdict r preds (check_expr cf h) x = Ok (check cf r pb h x).
   Proof.
     intros Hok Hw. unfold verdict, check_expr, check. destruct (ignorable h) eqn:Hig; [reflexivity|].
     destruct (root_run h x Hok Hw Hig) as (s2 & E2 & _). rewrite E2. reflexivity.
